@@ -31,6 +31,8 @@ type Batch struct {
 	Race    bool     // use the -race worker
 	Strace  string   // non-empty: run under strace with these extra args, log to <out>.strace
 	Procs   int      // GOMAXPROCS for the child (0 = default share)
+	RunAs   string   // run the workload of this (other) property; its violations are reported under the check's own property
+	Keys    []string // with RunAs: only violations whose key contains one of these are relevant to the borrowing property
 	Netns   bool     // run the child in a fresh network namespace (unshare -n); the worker configures a veth pair in it
 	Timeout time.Duration
 }
@@ -170,7 +172,7 @@ func main() {
 			// index of the batch among the batches of the same mode (exhaustive enumerations are partitioned per mode)
 			mi, mn := 0, 0
 			for j, o := range plan {
-				if o.Mode == b.Mode {
+				if o.Mode == b.Mode && o.RunAs == b.RunAs {
 					if j < i {
 						mi++
 					}
@@ -457,7 +459,14 @@ func raceKey(rep string) (string, bool) {
 
 func runChild(bin, prop, tier string, seed uint64, i, n, mi, mn int, b Batch, dir string, par int) childResult {
 	out := filepath.Join(dir, fmt.Sprintf("b%03d.json", i))
-	args := []string{"-prop", prop, "-tier", tier, "-seed", fmt.Sprint(seed), "-batch", fmt.Sprint(i), "-nbatch", fmt.Sprint(n), "-mbatch", fmt.Sprint(mi), "-mnbatch", fmt.Sprint(mn), "-mode", b.Mode, "-out", out}
+	wprop := prop
+	if b.RunAs != "" {
+		wprop = b.RunAs
+	}
+	args := []string{"-prop", wprop, "-tier", tier, "-seed", fmt.Sprint(seed), "-batch", fmt.Sprint(i), "-nbatch", fmt.Sprint(n), "-mbatch", fmt.Sprint(mi), "-mnbatch", fmt.Sprint(mn), "-mode", b.Mode, "-out", out}
+	if b.RunAs != "" {
+		args = append(args, "-report-as", prop, "-only-keys", strings.Join(b.Keys, ","))
+	}
 	timeout := b.Timeout
 	if timeout == 0 {
 		timeout = 10 * time.Minute
